@@ -4,7 +4,10 @@ SPEC = dict(
     pkg="./cluster", files=["cluster/c35_verif_test.go"],
     rule="byte streams sent over TCP to a cluster.Service behind a tcp.Mux running in a child process: hand-picked corpus (empty, foreign mux byte, "
          "short prefix, every Command_Type x {right, missing, foreign payload} x credentials x 6 credential files, declared lengths 2^31-1, 2^31, 2^32, 2^40, "
-         "2^63-1, 2^63, 2^64-1, 64 MiB, 1 GiB followed by 0-20 bytes, truncated protobufs and frames) plus random streams of 1-5 frames "
+         "2^63-1, 2^63, 2^64-1, 64 MiB, 1 GiB followed by 0-20 bytes, truncated protobufs and frames; the Command envelope at its numeric boundaries as well-formed frames: "
+         "type field 0, len(enum), len(enum)+1, MaxInt32, 2^31, 2^32-1 (= -1), -1/-2/-14/MinInt32 as 10-byte varints, 2^32, 2^63, MaxInt64, overlong and over-long/unterminated varints, "
+         "each x {no payload, credentials, another type's payload}; the type given twice; unknown field numbers (incl. the largest, groups, reserved wire types, field 0); known fields with the wrong wire type; "
+         "payload under the wrong oneof / several oneofs; credentials twice / empty / with a length past the end; each alone and followed by a valid command) plus random streams of 1-5 frames "
          "(valid, random bytes, bit-flipped, truncated, inconsistent length); a stream is non-trivial when one of its payloads decodes to a command "
          "or a declared length exceeds the bytes that follow; distinct by (bytes, credential file)",
     exhaustive=False,
@@ -16,7 +19,7 @@ SPEC = dict(
                  "memory is observed as runtime.MemStats.TotalAlloc growth of the child while the stream is served"],
     case_preamble="From RQ Require Import Model.C19 Model.C18.\nFrom RQ Require Import Model.C35.\nOpen Scope string_scope.\n",
     level_text="C35_no_crash, C35_alloc_bounded, C35_no_state_change_without_perm_partial, C35_oversize_rejected hold for every byte sequence, every credential store and "
-               "every protobuf decoder (decoder = hypothesis-free parameter except that it names known command types); C35_state_change_refuted exhibits HIGHWATER_MARK_UPDATE.",
+               "every protobuf decoder (an unconstrained parameter: the command type it yields is any integer Z, dispatched by the total function type_name); C35_state_change_refuted exhibits HIGHWATER_MARK_UPDATE.",
     level_note="frame reader modelled on bytes; handlers are C18's terms; tie = differential run of generated streams against a child-process node.",
     technique="Coq proof (induction over the connection's bytes) + child-process differential run with crash / memory / liveness oracle",
     design_ref="6/C35",
